@@ -26,6 +26,7 @@ func init() {
 		c20NoSharing(c)
 		c20Snapshot(c, "C20.2b")
 		sliceFifoShapes(c, "C20.2c")
+		sliceIterationOrder(c, "C20.2d")
 		c20Bounds(c)
 		c20Emitter(c)
 		c20EmitterBasics(c)
@@ -1625,5 +1626,188 @@ func c20EmitterBasics(c *core.Ctx) {
 				return true
 			})
 		}
+	}
+}
+
+// sliceIterationOrder — C20.2d (mutation audit round 4): in which order Range and
+// RangeAndSplice visit a sequence, and when they stop.
+func sliceIterationOrder(c *core.Ctx, R string) {
+	c.Rule(R, "iteration order of types.Slice: Range and RangeAndSplice call f exactly once per element with (element at i, i), ascending over s.elements unless the variadic reverse flag is given and true — then descending from len-1 down to and including 0, one step at a time; the first result that says stop (false for Range, condition true for RangeAndSplice) ends the iteration (break / return) and no other does")
+	for _, k := range []string{"types.(*Slice).Range", "types.(*Slice).RangeAndSplice"} {
+		u := c.Fn(R, k)
+		if u == nil {
+			continue
+		}
+		info := u.Info()
+		g := u.Graph()
+		fn, flag := paramName(u, 0), paramName(u, 1)
+		isElems := func(e ast.Expr) bool { return fieldOf(info, e) == "Slice.elements" }
+		rev := func(x *core.Unit, br core.Branch) int { // the atom reverse[0]
+			if br.IsCase {
+				return 0
+			}
+			if ix, isIx := ast.Unparen(br.Cond).(*ast.IndexExpr); isIx && isLocal(x.Info(), ix.X, flag) {
+				if v, isK := core.ConstInt(x.Info(), ix.Index); isK && v == 0 {
+					return 1
+				}
+			}
+			return 0
+		}
+		type site struct {
+			call *ast.CallExpr
+			loop ast.Stmt
+		}
+		var sites []site
+		var stack []ast.Node
+		ast.Inspect(u.Body, func(n ast.Node) bool {
+			if n == nil {
+				stack = stack[:len(stack)-1]
+				return true
+			}
+			stack = append(stack, n)
+			if ce, isC := n.(*ast.CallExpr); isC && isLocal(info, ce.Fun, fn) {
+				var loop ast.Stmt
+				for i := len(stack) - 1; i >= 0 && loop == nil; i-- {
+					switch l := stack[i].(type) {
+					case *ast.ForStmt:
+						loop = l
+					case *ast.RangeStmt:
+						loop = l
+					}
+				}
+				sites = append(sites, site{ce, loop})
+			}
+			return true
+		})
+		asc, desc := 0, 0
+		okAsc, okDesc, okStop := true, true, true
+		for _, st := range sites {
+			loc := g.LocOf(st.call)
+			if len(st.call.Args) != 2 {
+				okAsc, okDesc = false, false
+				continue
+			}
+			// stop: the edge that says "stop" leads out of the loop, the other one goes on
+			stops := func(x *core.Unit, br core.Branch) int {
+				if br.IsCase {
+					return 0
+				}
+				e := ast.Unparen(br.Cond)
+				if e == ast.Expr(st.call) {
+					return -1 // Range: f(...) false stops
+				}
+				if d, ok := x.SingleDef(e); ok {
+					if te, isT := d.(*core.TupleElem); isT && te.Index == 0 && ast.Unparen(te.X) == ast.Expr(st.call) {
+						return 1 // RangeAndSplice: condition true stops
+					}
+				}
+				return 0
+			}
+			leaves, leavesOther := false, false
+			if st.loop != nil {
+				var body *ast.BlockStmt
+				switch l := st.loop.(type) {
+				case *ast.ForStmt:
+					body = l.Body
+				case *ast.RangeStmt:
+					body = l.Body
+				}
+				var ifs []*ast.IfStmt
+				var walk func(y ast.Node) bool
+				walk = func(y ast.Node) bool {
+					switch s := y.(type) {
+					case *ast.FuncLit:
+						return false
+					case *ast.IfStmt:
+						ifs = append(ifs, s)
+						ast.Inspect(s.Body, walk)
+						ifs = ifs[:len(ifs)-1]
+						if s.Else != nil {
+							ast.Inspect(s.Else, walk)
+						}
+						return false
+					case *ast.ReturnStmt:
+						if g.GuardedBy(g.LocOf(s), stops) {
+							leaves = true
+						} else {
+							leavesOther = true
+						}
+					case *ast.BranchStmt:
+						// go/cfg turns a break into an edge: judged by the test it stands under — `if !f(…) { break }`
+						if s.Tok == token.BREAK {
+							good := false
+							if len(ifs) > 0 {
+								if ue, isU := ast.Unparen(ifs[len(ifs)-1].Cond).(*ast.UnaryExpr); isU && ue.Op == token.NOT && ast.Unparen(ue.X) == ast.Expr(st.call) {
+									good = true
+								}
+							}
+							if good {
+								leaves = true
+							} else {
+								leavesOther = true
+							}
+						}
+					}
+					return true
+				}
+				ast.Inspect(body, walk)
+			}
+			okStop = okStop && leaves && !leavesOther
+			switch l := st.loop.(type) {
+			case *ast.RangeStmt:
+				asc++
+				okAsc = okAsc && isElems(l.X) && !g.GuardedBy(loc, rev) && l.Key != nil && l.Value != nil &&
+					core.ObjOf(info, st.call.Args[0]) == core.ObjOf(info, l.Value) && core.ObjOf(info, st.call.Args[1]) == core.ObjOf(info, l.Key)
+			case *ast.ForStmt:
+				desc++
+				good := g.GuardedBy(loc, rev) && g.GuardedBy(loc, lenNonEmpty(func(x *core.Unit, e ast.Expr) bool { return isLocal(x.Info(), e, flag) }))
+				var iv types.Object
+				if as, isA := l.Init.(*ast.AssignStmt); isA && len(as.Lhs) == 1 && len(as.Rhs) == 1 {
+					iv = core.ObjOf(info, as.Lhs[0])
+					be, isB := ast.Unparen(as.Rhs[0]).(*ast.BinaryExpr)
+					one, _ := core.ConstInt(info, func() ast.Expr {
+						if isB {
+							return be.Y
+						}
+						return nil
+					}())
+					lc, isL := func() (*ast.CallExpr, bool) {
+						if !isB {
+							return nil, false
+						}
+						ce, ok := ast.Unparen(be.X).(*ast.CallExpr)
+						return ce, ok
+					}()
+					good = good && isB && be.Op == token.SUB && one == 1 && isL && calleeNameOf(lc) == "len" && len(lc.Args) == 1 && isElems(lc.Args[0])
+				} else {
+					good = false
+				}
+				if cmp, isCmp := u.BranchCmp(core.Branch{Cond: l.Cond}); isCmp && iv != nil && core.ObjOf(info, cmp.X) == iv {
+					K, ge, okT := cmpThreshold(cmp)
+					good = good && okT && K == 0 && ge == 0 // i >= 0 keeps the loop going: index 0 is visited
+				} else {
+					good = false
+				}
+				if pd, isP := l.Post.(*ast.IncDecStmt); !isP || pd.Tok != token.DEC || core.ObjOf(info, pd.X) != iv {
+					good = false
+				}
+				// f(s.elements[i] (or a local holding it), i)
+				elem := u.Deep(st.call.Args[0])
+				ix, isIx := ast.Unparen(elem).(*ast.IndexExpr)
+				good = good && isIx && isElems(ix.X) && core.ObjOf(info, ix.Index) == iv && core.ObjOf(info, st.call.Args[1]) == iv
+				okDesc = okDesc && good
+			default:
+				okAsc, okDesc = false, false
+			}
+		}
+		// one direction per call: no path runs both loops
+		if len(sites) == 2 {
+			a, b := g.LocOf(sites[0].call), g.LocOf(sites[1].call)
+			if g.CanFollow(a, b) || g.CanFollow(b, a) {
+				okAsc = false
+			}
+		}
+		c.Check(R, k+"/ascending-unless-reverse,descending-to-0,stop-on-the-first-result-that-says-so", u.Pos(), asc == 1 && desc == 1 && okAsc && okDesc && okStop,
+			keyf("ascending range over s.elements with (value, key) off the reverse edge: %v (%d); descending for from len-1 while i >= 0 by i-- with (s.elements[i], i) on the reverse edge: %v (%d); the loops are left exactly on the stop result: %v", okAsc, asc, okDesc, desc, okStop))
 	}
 }
